@@ -127,6 +127,12 @@ FmtProgs ==
            a \in {<<>>, <<51>>, <<45, 51>>}, b \in {<<>>, <<52>>, <<45, 52>>, <<46, 49>>}, c \in {<<46, 49>>, <<48, 54, 46, 49>>, <<54, 46>>}}
   \cup {ShowR("sprintf", <<EStr(<<49, 48, 48, 37, 37, 32, 37, 118, 45, 37, 118>>), Num(1), EStr(<<120>>)>>),
         ShowR("sprintf", <<EStr(<<110, 111, 32, 118, 101, 114, 98>>)>>),
+        \* a literal percent sign next to any character, percent signs and exclamation marks in the arguments
+        ShowR("sprintf", <<EStr(<<53, 48, 37, 37, 33, 32, 37, 118, 33>>), EStr(<<56, 48, 37, 33>>)>>),
+        ShowR("sprintf", <<EStr(<<37, 115, 124, 37, 118>>), EStr(<<97, 37, 33, 98>>), EStr(<<37, 33, 118, 40, 77, 73, 83, 83, 73, 78, 71, 41>>)>>),
+        ShowR("sprintf", <<EStr(<<37, 37, 33, 37, 37, 100, 37, 37>>)>>),
+        P1(<<SCall(ECallB("printf", <<EStr(<<83, 97, 108, 101, 58, 32, 53, 48, 37, 37, 33, 10>>)>>))>>),
+        P1(<<SCall(ECallB("test", <<Num(1), Num(2), EStr(<<111, 110, 108, 121, 32, 37, 118, 37, 37, 33>>), Num(50)>>)), SCall(ECallB("print", <<Num(1)>>))>>),
         P1(<<SCall(ECallB("printf", <<Num(5)>>))>>),
         P1(<<SCall(ECallB("printf", <<>>))>>),
         ShowR("sprintf", <<>>)}
